@@ -482,7 +482,7 @@ def run(ctx):
     cases, recs = [], []
     prelude = {}
     variant_seen = set()
-    for (sc, pts), res in zip(flat, results):
+    for jid, ((sc, pts), res) in enumerate(zip(flat, results)):
         desc = {k: sc[k] for k in ("case", "split", "mode", "pool", "nest", "alt_path")}
         if res is None or "error" in res:
             ctx.fail("crash scenario could not be run", {"scenario": desc, "error": (res or {}).get("error")},
@@ -618,7 +618,7 @@ def run(ctx):
             if new_con is None:
                 continue
             K = KFIX
-            sid = sc["sid"]
+            sid = jid        # every job builds its own template directory (its own search results)
             if sid not in prelude:
                 base_l, seen0 = [], set()
                 for c, bts in list(zip([e["con"] for e in info], entry_bytes)) + [(new, res["new_bytes"])]:
